@@ -198,6 +198,9 @@ func c11Round(phaseIdx int) {
 		verifrt.Assert(post.CanaryStatus.CurrentBatch == pre.CanaryStatus.CurrentBatch+1, "C01.executor.advancesByOneBatch")
 		verifrt.Assert(pre.CanaryStatus.CurrentBatchState == v1beta1.ReadyBatchState && ctrl.called("Ensure") && !ctrl.ensureErr, "C01.executor.advancesOnlyFromVerifiedReadyBatch")
 		verifrt.Assert(!hasPartition || post.CanaryStatus.CurrentBatch <= part, "C01.executor.neverBeyondBatchPartition")
+		// the verdict "Ready" belongs to the batch that was verified: a batch that has just been entered — the last one
+		// of the plan included — starts at Upgrading, it has neither been upgraded nor verified yet
+		verifrt.Assert(post.CanaryStatus.CurrentBatchState == v1beta1.UpgradingBatchState, "C11.enteredBatchStartsAtUpgrading")
 	}
 	if progressing && hasPartition && pre.CanaryStatus.CurrentBatch <= part && post.Phase == v1beta1.RolloutPhaseProgressing {
 		verifrt.Assert(post.CanaryStatus.CurrentBatch <= part, "C01.executor.currentBatchStaysWithinPartition")
